@@ -22,6 +22,7 @@ type SolverCfg struct {
 	Workers   int
 	Solvers   []string // order of the race
 	Confirm   bool     // thorough: every unsat confirmed by a second solver
+	NoBatch   bool
 	KeepFiles bool
 }
 
@@ -94,25 +95,7 @@ func (st *symtab) walk(e *Engine, t *Term, seen map[*Term]bool, bound map[string
 	}
 }
 
-func (e *Engine) script(vc *VC, o *Obligation, extra []*Term, getValues []*Term) string {
-	var terms []*Term
-	terms = append(terms, vc.Assumes[:o.NAssume]...)
-	terms = append(terms, extra...)
-	goal := Not(o.Goal)
-	if o.Kind == "pre-sat" {
-		goal = True
-		terms = vc.Assumes[:vc.PreN]
-		terms = append(append([]*Term{}, terms...), extra...)
-	}
-	st := &symtab{vars: map[string]*Sort{}, ufs: map[string]bool{}, structs: map[string]*Sort{}}
-	seen := map[*Term]bool{}
-	for _, t := range terms {
-		st.walk(e, t, seen, nil)
-	}
-	st.walk(e, goal, seen, nil)
-	for _, g := range getValues {
-		st.walk(e, g, seen, nil)
-	}
+func (e *Engine) header(st *symtab) string {
 	var sb strings.Builder
 	sb.WriteString(prelude)
 	for _, n := range st.order {
@@ -137,7 +120,7 @@ func (e *Engine) script(vc *VC, o *Obligation, extra []*Term, getValues []*Term)
 	// builtin axioms for uninterpreted helpers in use
 	if st.ufs["errIs"] {
 		sb.WriteString("(assert (forall ((e Int)) (! (errIs e e) :pattern ((errIs e e)))))\n")
-		sb.WriteString("(assert (forall ((t Int)) (! (not (errIs 0 t)) :pattern ((errIs 0 t)))))\n")
+		sb.WriteString("(assert (forall ((t Int)) (! (=> (not (= t 0)) (not (errIs 0 t))) :pattern ((errIs 0 t)))))\n")
 	}
 	if st.ufs["pow2"] {
 		sb.WriteString("(assert (= (pow2 0) 1))\n(assert (forall ((n Int)) (! (=> (> n 0) (= (pow2 n) (* 2 (pow2 (- n 1))))) :pattern ((pow2 n)))))\n")
@@ -164,6 +147,30 @@ func (e *Engine) script(vc *VC, o *Obligation, extra []*Term, getValues []*Term)
 	if len(sent) > 1 {
 		fmt.Fprintf(&sb, "(assert (distinct %s))\n", strings.Join(sent, " "))
 	}
+	return sb.String()
+}
+
+func (e *Engine) script(vc *VC, o *Obligation, extra []*Term, getValues []*Term) string {
+	var terms []*Term
+	terms = append(terms, vc.Assumes[:o.NAssume]...)
+	terms = append(terms, extra...)
+	goal := Not(o.Goal)
+	if o.Kind == "pre-sat" {
+		goal = True
+		terms = vc.Assumes[:vc.PreN]
+		terms = append(append([]*Term{}, terms...), extra...)
+	}
+	st := &symtab{vars: map[string]*Sort{}, ufs: map[string]bool{}, structs: map[string]*Sort{}}
+	seen := map[*Term]bool{}
+	for _, t := range terms {
+		st.walk(e, t, seen, nil)
+	}
+	st.walk(e, goal, seen, nil)
+	for _, g := range getValues {
+		st.walk(e, g, seen, nil)
+	}
+	var sb strings.Builder
+	sb.WriteString(e.header(st))
 	for _, t := range terms {
 		sb.WriteString("(assert ")
 		t.write(&sb, nil)
@@ -179,6 +186,38 @@ func (e *Engine) script(vc *VC, o *Obligation, extra []*Term, getValues []*Term)
 			sb.WriteString(" ")
 		}
 		sb.WriteString("))\n")
+	}
+	return sb.String()
+}
+
+// batchScript: all (unfolded, non-vacuity) obligations of one VC in one incremental script.
+// Assumptions are asserted in recording order, so obligation k sees exactly Assumes[:NAssume_k].
+func (e *Engine) batchScript(vc *VC, obls []*Obligation, timeoutMs int) string {
+	st := &symtab{vars: map[string]*Sort{}, ufs: map[string]bool{}, structs: map[string]*Sort{}}
+	seen := map[*Term]bool{}
+	maxN := 0
+	for _, o := range obls {
+		if o.NAssume > maxN {
+			maxN = o.NAssume
+		}
+		st.walk(e, o.Goal, seen, nil)
+	}
+	for _, t := range vc.Assumes[:maxN] {
+		st.walk(e, t, seen, nil)
+	}
+	var sb strings.Builder
+	sb.WriteString(e.header(st))
+	fmt.Fprintf(&sb, "(set-option :timeout %d)\n", timeoutMs)
+	next := 0
+	for _, o := range obls {
+		for ; next < o.NAssume; next++ {
+			sb.WriteString("(assert ")
+			vc.Assumes[next].write(&sb, nil)
+			sb.WriteString(")\n")
+		}
+		sb.WriteString("(push 1)\n(assert ")
+		Not(o.Goal).write(&sb, nil)
+		sb.WriteString(")\n(check-sat)\n(pop 1)\n")
 	}
 	return sb.String()
 }
@@ -251,7 +290,7 @@ func (e *Engine) Solve(jobs []solveJob, cfg SolverCfg) {
 				file := filepath.Join(cfg.TmpDir, fmt.Sprintf("ob%06d.smt2", id))
 				os.WriteFile(file, []byte(text), 0o644)
 				want := "unsat"
-				if o.Kind == "pre-sat" {
+				if o.Kind == "pre-sat" || o.Kind == "vacuity" {
 					want = "sat"
 				}
 				var total float64
@@ -298,8 +337,75 @@ func (e *Engine) Solve(jobs []solveJob, cfg SolverCfg) {
 			}
 		}()
 	}
+	// phase 1: one incremental z3 process per VC for its ordinary obligations (cuts process count ~20x);
+	// anything not answered "unsat" there goes through the standalone race below.
+	batched := map[*Obligation]bool{}
+	if !cfg.Confirm && !cfg.NoBatch {
+		type group struct {
+			vc   *VC
+			obls []*Obligation
+		}
+		var groups []*group
+		idx := map[*VC]*group{}
+		for _, j := range jobs {
+			if j.o.Folded || j.o.Kind == "pre-sat" || j.o.Kind == "vacuity" {
+				continue
+			}
+			g := idx[j.vc]
+			if g == nil {
+				g = &group{vc: j.vc}
+				idx[j.vc] = g
+				groups = append(groups, g)
+			}
+			g.obls = append(g.obls, j.o)
+		}
+		gch := make(chan *group)
+		var gwg sync.WaitGroup
+		var gseq int
+		for w := 0; w < cfg.Workers; w++ {
+			gwg.Add(1)
+			go func() {
+				defer gwg.Done()
+				for g := range gch {
+					if len(g.obls) < 4 {
+						continue
+					}
+					mu.Lock()
+					gseq++
+					id := gseq
+					mu.Unlock()
+					text := e.batchScript(g.vc, g.obls, 3000)
+					file := filepath.Join(cfg.TmpDir, fmt.Sprintf("batch%05d.smt2", id))
+					os.WriteFile(file, []byte(text), 0o644)
+					ctx, cancel := context.WithTimeout(context.Background(), time.Duration(20+len(g.obls)/4)*time.Second)
+					cmd := exec.CommandContext(ctx, "z3-new", file)
+					var out bytes.Buffer
+					cmd.Stdout = &out
+					t0 := time.Now()
+					_ = cmd.Run()
+					cancel()
+					dt := time.Since(t0).Seconds()
+					lines := strings.Fields(out.String())
+					for i, o := range g.obls {
+						if i < len(lines) && lines[i] == "unsat" {
+							o.Result, o.Solver, o.Seconds = "unsat", "z3-new(batch)", dt/float64(len(g.obls))
+							mu.Lock()
+							batched[o] = true
+							mu.Unlock()
+						}
+					}
+					os.Remove(file)
+				}
+			}()
+		}
+		for _, g := range groups {
+			gch <- g
+		}
+		close(gch)
+		gwg.Wait()
+	}
 	for _, j := range jobs {
-		if j.o.Folded {
+		if j.o.Folded || batched[j.o] {
 			continue
 		}
 		ch <- j
